@@ -200,6 +200,11 @@ func runC12Fault(c C12Fault, info *kit.Info) *kit.Finding {
 	}
 	info.Steps = len(all)
 	info.NonTrivial = transient > 0 // the fault was really seen by the accept loop
+	if transient > 0 {
+		info.Class("accept-errors-reached-the-handles")
+	} else {
+		info.Class("no-accept-error-seen")
+	}
 	return nil
 }
 
